@@ -167,27 +167,37 @@ SEQ_FEATS = {
 }
 
 
+SEQ_NAME = "s_1"
+SIBLINGS = ["s11", "S_1", "sx1"]
+
+
 def make_root_seq(new, rid, load, featset):
     """the real object: root sequence with the chosen features attached"""
     from cogent3 import make_seq
     P, off = SEQ_ROOTS[rid]
     kw = {"annotation_offset": off} if off else {}
-    s = make_seq(P, name="s", moltype="dna", new_type=new, **kw)
+    # the sequence is called s_1 and the same database also holds records of sibling sequences whose names differ
+    # from it only as an SQL LIKE pattern would ignore ('_' wildcard, letter case): none of them may ever be returned
+    s = make_seq(P, name=SEQ_NAME, moltype="dna", new_type=new, **kw)
     feats = [f for f in SEQ_FEATS[rid] if featset == "*" or f[0] == featset]
     if load == "db":
         for name, bt, spans, strand in feats:
-            s.annotation_db.add_feature(seqid="s", biotype=bt, name=name, spans=[list(x) for x in spans], strand=strand)
+            s.annotation_db.add_feature(seqid=SEQ_NAME, biotype=bt, name=name, spans=[list(x) for x in spans], strand=strand)
+        for sib in SIBLINGS:
+            for name, bt, spans, strand in feats[:2]:
+                s.annotation_db.add_feature(seqid=sib, biotype=bt, name=f"decoy:{sib}:{name}", spans=[list(x) for x in spans],
+                                            strand=strand)
     elif load == "gff":
         from cogent3.core.annotation_db import load_annotations
         lines = ["##gff-version 3"]
         for name, bt, spans, strand in feats:
             for a, b in spans:
-                lines.append("\t".join(["s", "spec", bt, str(a + 1), str(b), ".", strand, ".", f"ID={name}"]))
+                lines.append("\t".join([SEQ_NAME, "spec", bt, str(a + 1), str(b), ".", strand, ".", f"ID={name}"]))
         with tempfile.TemporaryDirectory() as d:
             path = os.path.join(d, "f.gff3")
             with open(path, "w") as fh:
                 fh.write("\n".join(lines) + "\n")
-            s.annotation_db = load_annotations(path=path, seqids="s")
+            s.annotation_db = load_annotations(path=path, seqids=SEQ_NAME)
     else:
         raise ValueError(load)
     return s, feats
